@@ -391,17 +391,24 @@ def _pair_case():
       st.just(ps),
       st.lists(st.sampled_from(['a', 'b', 'ab', 'none']), min_size=len(ps),
                max_size=len(ps)),
-      st.sampled_from(['diff', 'sub', 'or', 'merge'])))
+      st.sampled_from(['diff', 'sub', 'or', 'merge']),
+      # empty sub-states (what `del state[...][leaf]` leaves behind) hold no
+      # path: they must not change the result of any set operation
+      st.lists(st.tuples(st.sampled_from(['a', 'b']), st.lists(
+          st.sampled_from(['a', 'b', 'c', 'k', 'e']), min_size=1,
+          max_size=3)), max_size=2)))
 
 
 @clause('state_set_laws', strategy=_pair_case, quick=3000, thorough=150000,
         rule='pairs of States drawn as sub-sets of one prefix-free path '
-        'universe with different values on shared paths: merge_state / | '
+        'universe with different values on shared paths, optionally holding '
+        'empty sub-states at unrelated prefixes: merge_state / | '
         '(later wins), diff / - (paths of a absent from b) vs a flat-dict '
         'model; non-trivial = both states non-empty and overlapping but '
         'different')
 def state_set_laws(case, ctx):
-  paths, member, op = case
+  paths, member, op, *rest = case
+  hollow = rest[0] if rest else []
   fa, fb = {}, {}
   for i, (p, m) in enumerate(zip(paths, member)):
     p = tuple(p)
@@ -409,9 +416,33 @@ def state_set_laws(case, ctx):
       fa[p] = nnx.Param(jnp.asarray(i))
     if 'b' in m:
       fb[p] = nnx.Param(jnp.asarray(100 + i))
-  with sut('from_flat_state'):
-    a = statelib.from_flat_state(fa)
-    b = statelib.from_flat_state(fb)
+  def nested(flat, empties, other):
+    out = {}
+    for p, v in flat.items():
+      d = out
+      for k in p[:-1]:
+        d = d.setdefault(k, {})
+      d[p[-1]] = v
+    used = []
+    for q in empties:
+      q = tuple(q)
+      # only where the state has no leaf at, above or below q
+      if any(p[:len(q)] == q or q[:len(p)] == p for p in flat):
+        continue
+      # ... and the other operand has no leaf at or above q (a leaf against
+      # a mapping at one path is a structural conflict, not a set operation)
+      if any(q[:len(p)] == p for p in other):
+        continue
+      d = out
+      for k in q:
+        d = d.setdefault(k, {})
+      used.append(q)
+    return out, used
+  na, ea = nested(fa, [q for w, q in hollow if w == 'a'], fb)
+  nb, eb = nested(fb, [q for w, q in hollow if w == 'b'], fa)
+  with sut('State(nested mapping)'):
+    a = statelib.State(na) if ea else statelib.from_flat_state(fa)
+    b = statelib.State(nb) if eb else statelib.from_flat_state(fb)
   if op in ('diff', 'sub'):
     with sut('State difference'):
       if op == 'diff':
@@ -440,5 +471,6 @@ def state_set_laws(case, ctx):
           and dict(statelib.to_flat_state(b)).keys() == fb.keys(),
           f'{op} modified an operand')
   inter = set(fa) & set(fb)
-  ctx.note(labels=[op], nontrivial=bool(fa) and bool(fb) and bool(inter)
+  ctx.note(labels=[op] + (['empty-substate'] if ea or eb else []),
+           nontrivial=bool(fa) and bool(fb) and bool(inter)
            and set(fa) != set(fb))
